@@ -47,11 +47,11 @@ def find_caller(ctx: Ctx, key: str) -> Tuple[FuncInfo, ast.Call]:
 
 
 def run(ctx: Ctx, rep: Report) -> None:
-    rep.rule("C11-R1", "with privacy credentials only the plug-in's ciphertext is placed into the outgoing message", floor=3)
-    rep.rule("C11-R2", "encrypt / decrypt arguments carry the localised key, engine id, boots, time, (salt,) data in Protocol order", floor=3)
-    rep.rule("C11-R3", "the privacy key is the privacy password localised with the user's authentication hash", floor=4)
+    rep.rule("C11-R1", "with privacy credentials only the plug-in's ciphertext is placed into the outgoing message", floor=2)
+    rep.rule("C11-R2", "encrypt / decrypt arguments carry the localised key, engine id, boots, time, (salt,) data in Protocol order", floor=2)
+    rep.rule("C11-R3", "the privacy key is the privacy password localised with the user's authentication hash", floor=2)
     rep.rule("C11-R4", "priv flag and encryption branch use the same predicate", floor=1)
-    rep.rule("C11-R5", "the engine id, boots and time handed to the encryption step are the discovered authoritative ones (shared with C10-R2 / C12-R2)", floor=5)
+    rep.rule("C11-R5", "the engine id, boots and time handed to the encryption step are the discovered authoritative ones (shared with C10-R2 / C12-R2)", floor=4)
     rep.assumptions += ["properties of any concrete cipher plug-in (only decrypt(encrypt(x)) = x is assumed by the property)", "incoming flag / payload-type disagreement ends in an exception (argued in DESIGN.md; not decided here)"]
     params_cls = ctx.u.cls("puresnmp_plugins.security.usm:USMSecurityParameters")
     # ------------------------------------------------------------ outgoing
@@ -90,7 +90,8 @@ def run(ctx: Ctx, rep: Report) -> None:
     cfg = ctx.cfg(fn)
 
     def priv_env(expr: ast.expr) -> Optional[bool]:
-        txt = norm(expr)
+        txt = norm(defs.expand(expr))
+        expr = defs.expand(expr)  # type: ignore[assignment]
         if isinstance(expr, ast.Compare) and len(expr.ops) == 1 and txt.startswith(f"{cred}.priv is"):
             return isinstance(expr.ops[0], ast.IsNot)
         if txt == f"{cred}.priv.method" or txt == f"{cred}.priv":
@@ -100,6 +101,7 @@ def run(ctx: Ctx, rep: Report) -> None:
     outs = simulate(cfg, priv_env)
     ok = bool(outs)
     detail = []
+    priv_paths = 0
     for o in outs:
         if o.kind == "raise":
             continue
@@ -126,8 +128,19 @@ def run(ctx: Ctx, rep: Report) -> None:
     # plaintext use: bytes(message.scoped_pdu) / message.scoped_pdu only as the data argument
     uses = [n for n in own_nodes(fn.node) if isinstance(n, ast.Attribute) and n.attr == "scoped_pdu" and norm(n.value) == msg_param and isinstance(n.ctx, ast.Load)]
     data_arg = eb.get("data")
-    inside = [u for u in uses if data_arg is not None and any(u is x for x in ast.walk(data_arg))]
-    rep.check(len(uses) == len(inside) == 1, "C11-R1", fn.site(), "the plaintext scoped PDU is read exactly once: as the data argument of encrypt_data", f"{len(uses)} read(s), {len(inside)} inside the call", key=f"{fn.key}|plaintext-use")
+    def only_feeds_data(use: ast.AST) -> bool:
+        """The read sits in the data argument, or defines a local whose every read sits there."""
+        if data_arg is not None and any(use is x for x in ast.walk(data_arg)):
+            return True
+        st_ = stmt_of(use)
+        if isinstance(st_, ast.Assign) and len(st_.targets) == 1 and isinstance(st_.targets[0], ast.Name) and data_arg is not None:
+            local = st_.targets[0].id
+            reads = [n for n in own_nodes(fn.node) if isinstance(n, ast.Name) and n.id == local and isinstance(n.ctx, ast.Load)]
+            return bool(reads) and all(any(r is x for x in ast.walk(data_arg)) for r in reads)
+        return False
+
+    inside = [u for u in uses if only_feeds_data(u)]
+    rep.check(len(uses) == len(inside) == 1, "C11-R1", fn.site(), "the plaintext scoped PDU is read exactly once: as the data argument of encrypt_data", f"{len(uses)} read(s), {len(inside)} feeding only the call", key=f"{fn.key}|plaintext-use")
     from ..engine.cfg import enclosing_tries
 
     handlers = [h for tr, part in enclosing_tries(call, fn.node) if part == "body" for h in tr.handlers]
@@ -136,8 +149,8 @@ def run(ctx: Ctx, rep: Report) -> None:
     # no-priv branch predicate
     branch_pred = None
     for n in own_nodes(fn.node):
-        if isinstance(n, ast.If) and norm(n.test) == f"{cred}.priv is None" and any(isinstance(s, ast.Return) for s in n.body):
-            branch_pred = norm(n.test)
+        if isinstance(n, ast.If) and norm(defs.expand(n.test)) == f"{cred}.priv is None" and any(isinstance(s, ast.Return) for s in n.body):
+            branch_pred = norm(defs.expand(n.test))
     v3 = mpm_class(ctx, 3)
     enc3 = own_method(ctx, v3, "encode")
     flag_pred = None
